@@ -533,6 +533,14 @@ pub fn check_main(eng: &dyn Engine, tier: Tier) -> i32 {
             }
         }
     }
+    if let Some(n) = other.get("ENG") {
+        inconclusive.push(format!("{n} generated cases hit a harness/engine error (see evidence)"));
+    }
+    if let Some(n) = sweep_extra.get("engine_errors").and_then(|v| v.as_u64()) {
+        if n > 0 {
+            inconclusive.push(format!("{n} engine errors in the systematic part: {}", sweep_extra.get("engine_error_list").map(|v| v.to_string()).unwrap_or_default()));
+        }
+    }
     let wall = t0.elapsed().as_secs_f64();
     let hist: BTreeMap<&str, u64> = names.iter().cloned().zip(stats.iter().cloned()).collect();
     samples.extend(sweep_samples);
